@@ -3,6 +3,8 @@
 set -e
 cd "$(dirname "$0")"
 export GOFLAGS=-mod=mod GOPROXY=off GOSUMDB=off GOTOOLCHAIN=local
+# encoding/json writes \b and \f as short escapes from Go 1.22 on; C15 / C16 compare its text with the Lean printer's byte for byte
+go version | awk '{split($3,v,"."); sub("go","",v[1]); if (v[1]+0<1 || (v[1]+0==1 && v[2]+0<22)) {print "setup: Go >= 1.22 required, found " $3; exit 1}}' || exit 1
 mkdir -p build/bin evidence lean/PolyVerif/Gen lean/PolyVerif/Audit
 sed "s#@REPO@#${VERIF_REPO:-/repo}#" harness/go.mod.in > harness/go.mod
 cp "${VERIF_REPO:-/repo}/go.sum" harness/go.sum
